@@ -61,6 +61,15 @@ pub fn check_entry(klen: usize, vlen: usize) -> Result<(), String> {
     entries.push((key, val));
     entries.push(last);
     let cfg = FileCfg::layout(Some(1024), Some(1), 1);
+    // the boundary entry alone in its file as well (a zero-length key is a legal key)
+    if klen + vlen < (1 << 22) {
+        let alone = vec![entries[if klen > 0 { 1 } else { 0 }].clone()];
+        let bytes = write_file(&cfg, &alone)?;
+        let got = run_query(&bytes, &Query::Scan { rev: false, mode: CursorMode::Fresh })?;
+        if got != alone {
+            return Err(format!("a file holding only the entry with key length {klen}, value length {vlen} does not return it"));
+        }
+    }
     let bytes = write_file(&cfg, &entries)?;
     for q in [Query::Scan { rev: false, mode: CursorMode::Fresh }, Query::Scan { rev: true, mode: CursorMode::Fresh }] {
         let got = run_query(&bytes, &q)?;
